@@ -35,7 +35,7 @@ func init() {
 		Assumptions: []string{"power loss is simulated from the recorded system-call trace under the stated model; real power loss cannot be produced in the sandbox", "tearing inside one write call is modelled by the listed prefixes, not produced", "strace's when= counts calls of one name by the traced (main) thread; every injected run is validated against its own trace"},
 		Batches:     func(tier string) int { return 16 },
 		Require: func(tier string) map[string]int64 {
-			return map[string]int64{"kill_points": 40, "kill_points_validated": 40, "crash_states": 80, "crash_points": 40, "states_after_ack_checked": 8, "syscall_faults": 20, "store_fault_subsets": 90, "failed_commits_over_the_log_limit": 12, "reopen_after_crash": 100}
+			return map[string]int64{"kill_points": 40, "kill_points_validated": 40, "crash_states": 80, "crash_points": 40, "states_after_ack_checked": 8, "syscall_faults": 20, "store_fault_subsets": 90, "failed_commits_over_the_log_limit": 12, "failed_session_commits_with_reuse": 40, "session_reads_after_failed_commit": 20, "reopen_after_crash": 100}
 		},
 		WorkerTimeoutSec: func(tier string) int { return 2400 },
 		Run:              runC05,
@@ -250,6 +250,7 @@ func runC05(c *fw.Ctx) {
 	c05SyscallFaults(c, profile, expected, window)
 	c05StoreFaults(c)
 	c05StoreFaultsTrimming(c)
+	c05SessionReuse(c)
 }
 
 // (1) kill sweep ------------------------------------------------------------
